@@ -1007,6 +1007,8 @@ class Interp:
                     i += 1
                 return
             for i in range(n):
+                if i < 16:
+                    self.ctx.add_pool(i)
                 yield it.ek.wrap(it.e[i])
             return
         if isinstance(it, TrackList):
@@ -1271,7 +1273,17 @@ class Interp:
         raise Unsupported('unary op')
 
     def e_IfExp(self, e, fr):
-        return self.eval(e.body, fr) if self.truth(self.eval(e.test, fr)) else self.eval(e.orelse, fr)
+        t = self.eval(e.test, fr)
+        if getattr(self.ctx, 'merge_ifexp', False) and isinstance(t, SBool):
+            # inside an element-wise map over a sequence of unknown length: no forking, build an if-then-else term
+            a = self.eval(e.body, fr)
+            b = self.eval(e.orelse, fr)
+            if is_intlike(a) and is_intlike(b):
+                return SInt(z3.If(t.e, zi(a), zi(b)))
+            if is_numlike(a) and is_numlike(b):
+                return SReal(z3.If(t.e, zr(a), zr(b)))
+            raise Unsupported('conditional expression of non-numeric values inside an element-wise map')
+        return self.eval(e.body, fr) if self.truth(t) else self.eval(e.orelse, fr)
 
     def e_BinOp(self, e, fr):
         return self.binop(e.op, self.eval(e.left, fr), self.eval(e.right, fr))
@@ -1868,8 +1880,42 @@ class Interp:
         try:
             self._comp(e, fr, lambda cfr: out.append(self.eval(e.elt, cfr)))
         except _SymbolicComp as sc:
+            ordn = getattr(fr, 'comp_ord', 0)
+            fr.comp_ord = ordn + 1
+            spec = self.loops.get((fr.name, 'comp%d' % ordn))
+            if spec is not None:
+                return self._comp_cut(e, fr, sc.it, spec, '%s#comp%d' % (fr.name, ordn))
             return self.models.map_comprehension(self, e, fr, sc.it)
-        return out
+        return PyList(out)
+
+    def _comp_cut(self, e, fr, it, spec, base):
+        """[elt for x in s] with side effects in elt, s of unknown length: cut at an invariant over (i, out)"""
+        gen = e.generators[0]
+        if len(e.generators) != 1 or gen.ifs:
+            raise Unsupported('loop contract on a filtering / nested comprehension')
+        sv = it.v if isinstance(it, Cell) else it
+        n = z3.Length(sv.e)
+        st8 = spec.enter(self, fr, sv)
+        st8.i = z3.IntVal(0)
+        st8.out = z3.Empty(IntSeq)
+        self.ctx.oblige(base + '.inv-entry', spec.inv(self, fr, st8), kind='inv-entry', hints=spec.hints(self, fr, st8, 'entry'))
+        spec.havoc(self, fr, st8)
+        i = self.ctx.fresh_index('i')
+        st8.i = i
+        st8.out = self.ctx.fresh('collected', IntSeq)
+        self.ctx.assume([0 <= i, i <= n])
+        self.ctx.assume(spec.inv(self, fr, st8))
+        if self.ctx.branch(i < n):
+            cfr = Frame(fr.name, dict(fr.env), fr.g, fr.fi)
+            self.assign(gen.target, sv.ek.wrap(sv.e[i]), cfr)
+            v = self.eval(e.elt, cfr)
+            st8.out = z3.Concat(st8.out, z3.Unit(zi(v)))
+            spec.step(self, fr, st8)
+            st8.i = i + 1
+            self.ctx.oblige(base + '.inv-preserved', spec.inv(self, fr, st8), kind='inv-preserved',
+                            hints=spec.hints(self, fr, st8, 'preserved'))
+            raise CutPath()
+        return Cell(SSeq(st8.out, list), list)
 
     def e_SetComp(self, e, fr):
         out = []
